@@ -107,6 +107,9 @@ def judge_batch(module, cases, nproc=16, timeout=3000, tag=None, chunk=None, ext
         env.update(extra_env or {})
         rc, out, _ = run_tlc(module, env=env, workers=1, timeout=timeout, tag="%s_%d" % (tag, ix))
         if rc != 0 or not os.path.exists(of):
+            # one retry: a transient JVM / file-system hiccup must not turn into a (machinery) failure
+            rc, out, _ = run_tlc(module, env=env, workers=1, timeout=timeout, tag="%s_%d_r" % (tag, ix))
+        if rc != 0 or not os.path.exists(of):
             raise MachineryError("TLC judge %s failed (rc=%s):\n%s" % (module, rc, out[-3000:]))
         res = []
         with open(of) as f:
